@@ -15,6 +15,7 @@ import (
 	"encoding/binary"
 	"encoding/hex"
 	"fmt"
+	"os"
 	"runtime"
 	"sort"
 	"testing"
@@ -353,8 +354,24 @@ func Run(t *testing.T, cfg Config, root func()) Result {
 	if cfg.Src == nil {
 		cfg.Src = choice.Replay(nil)
 	}
+	stepsDir := os.Getenv("VERIF_STEPS") // debugging aid: dump every decision of every run
+	if stepsDir != "" {
+		cfg.KeepSteps = 1 << 30
+	}
 	s := &sched{cfg: cfg, tasks: map[uint64]int{}}
 	s.res.Sites = map[string]int{}
+	defer func() {
+		if stepsDir != "" {
+			f, err := os.OpenFile(fmt.Sprintf("%s/steps.%d.txt", stepsDir, os.Getpid()), os.O_CREATE|os.O_APPEND|os.O_WRONLY, 0o644)
+			if err == nil {
+				fmt.Fprintf(f, "RUN steps=%d tasks=%d hash=%s\n", s.res.Steps, s.res.Tasks, s.res.TraceHash)
+				for i, st := range s.res.Head {
+					fmt.Fprintf(f, "%d task=%d %s key=%d of=%d\n", i, st.Task, st.Site, st.Key, st.Of)
+				}
+				f.Close()
+			}
+		}
+	}()
 	// The bubble runs in a sub-test: when the race detector reported something
 	// during the run, testing/synctest fails the bubble's T and calls FailNow on
 	// its parent, which must not unwind the worker's own test goroutine.
